@@ -86,6 +86,17 @@ theorem checkWindowTimeout_open {s : St} {w : Window} (h : (checkWindowTimeout s
 @[simp] theorem evictOne_marker (s : St) (v : Option VClass) : (evictOne s v).marker = s.marker := by
   unfold evictOne; split <;> rfl
 
+@[simp] theorem recordFailure_fresh (s : St) : (recordFailure s).fresh = s.fresh := by
+  unfold recordFailure; simp only; splits
+@[simp] theorem removeTask_fresh (s : St) (x : Nat) : (removeTask s x).fresh = s.fresh := rfl
+@[simp] theorem setTask_fresh (s : St) (t : Task) : (setTask s t).fresh = s.fresh := rfl
+@[simp] theorem failTask_fresh (s : St) (x : Nat) : (failTask s x).fresh = s.fresh := by simp [failTask]
+@[simp] theorem updateSessionTimeout_fresh (s : St) (x : Nat) (n : Bool) :
+    (updateSessionTimeout s x n).1.fresh = s.fresh := by
+  unfold updateSessionTimeout; simp only; splits
+@[simp] theorem evictOne_fresh (s : St) (v : Option VClass) : (evictOne s v).fresh = s.fresh := by
+  unfold evictOne; split <;> rfl
+
 /-- everything but the table -/
 def SameCore (a b : St) : Prop :=
   a.sessions = b.sessions ∧ a.window = b.window ∧ a.tasks = b.tasks ∧ a.now = b.now ∧ a.marker = b.marker ∧
@@ -311,14 +322,28 @@ theorem failure_leaves_no_session (s : St) (op : Op) (h : (step s op).2 ≠ .sta
       · simp [hw]
     simp only [step, ht, hnone, hst, hcw, hid]
     simp
+/-- what a Pake1 with a valid prover share does on a live handshake that holds the marker while a
+window is open: the responder draws a fresh share `pB` and from now on expects exactly
+`Conf (window's passcode class) (its transcript) (the received share) pB` -/
+theorem pake1_valid_step (s : St) (x a ctx : Nat) (t0 : Task) (w : Window)
+    (ht0 : findTask s x = some t0) (hnone : (updateSessionTimeout s x false).2 = none)
+    (hctx : t0.stage = .waitPake1 ctx)
+    (hw : (checkWindowTimeout (updateSessionTimeout s x false).1).window = some w) :
+    (step s (.pake1 x (.valid a))).2 = .pake2 s.fresh ∧ (step s (.pake1 x (.valid a))).1.fresh = s.fresh + 1 := by
+  simp only [step, ht0, hnone, hctx, hw]
+  simp
+
 /-- **A handshake gets as far as expecting Pake3 only through a Pake1 carrying a valid prover share,
 received while a window is present and unexpired; the value it will then accept is bound to that
-window's passcode class, the handshake's own transcript and both shares.** -/
+window's passcode class (`exp.pw`), the handshake's own transcript (`exp.ctx`), the received share
+(`exp.pA`) and a responder share that is drawn at that very step and has never been used before
+(`exp.pB = s.fresh`, after the step `fresh = s.fresh + 1`).** -/
 theorem waitPake3_only_by_valid_pake1 (s : St) (op : Op) (t : Task) (exp : Conf) (wid : Nat)
     (ht : t ∈ (step s op).1.tasks) (hst : t.stage = .waitPake3 exp wid) :
     t ∈ s.tasks ∨
     ∃ a ctx w t0, op = .pake1 t.exch (.valid a) ∧ findTask s t.exch = some t0 ∧ t0.stage = .waitPake1 ctx ∧
-      s.window = some w ∧ s.now ≤ w.expiry ∧ exp.pw = w.pw ∧ exp.ctx = ctx ∧ exp.pA = a ∧ wid = w.id := by
+      s.window = some w ∧ s.now ≤ w.expiry ∧ exp.pw = w.pw ∧ exp.ctx = ctx ∧ exp.pA = a ∧ wid = w.id ∧
+      exp.pB = s.fresh ∧ (step s op).1.fresh = s.fresh + 1 := by
   cases op with
   | openWin pw secs =>
     left; simp only [step, openWinCore] at ht
@@ -374,7 +399,8 @@ theorem waitPake3_only_by_valid_pake1 (s : St) (op : Op) (t : Task) (exp : Conf)
     · rename_i t0 ht0
       split at ht
       · left; simpa using mem_removeTask ht
-      · split at ht
+      · rename_i hnone
+        split at ht
         · left; simpa using mem_failTask ht
         · rename_i ctx hctx
           split at ht
@@ -390,12 +416,14 @@ theorem waitPake3_only_by_valid_pake1 (s : St) (op : Op) (t : Task) (exp : Conf)
                   simp only at hst
                   injection hst with hst hwid
                   obtain ⟨hw1, hw2⟩ := checkWindowTimeout_open hw
-                  refine ⟨a, ctx, w, t0, rfl, ht0, hctx, ?_, ?_, ?_, ?_, ?_, hwid.symm⟩
+                  refine ⟨a, ctx, w, t0, rfl, ht0, hctx, ?_, ?_, ?_, ?_, ?_, hwid.symm, ?_,
+                    (pake1_valid_step s x a ctx t0 w ht0 hnone hctx hw).2⟩
                   · simpa using hw1
                   · simpa using hw2
                   · rw [← hst]
                   · rw [← hst]
                   · rw [← hst]
+                  · rw [← hst]; simp
                 · left; simpa using h
               · left; simpa using mem_failTask ht
   | pake3 x c =>
@@ -418,7 +446,9 @@ theorem waitPake3_only_by_valid_pake1 (s : St) (op : Op) (t : Task) (exp : Conf)
     left
     simp only [step] at ht
     split at ht
-    · exact ht
+    · split at ht
+      · simpa using ht
+      · exact ht
     · simpa using mem_failTask ht
 theorem step_winInv (s : St) (op : Op) (h : WinInv s.window) : WinInv (step s op).1.window := by
   have h0 : (0 : Nat) < maxFailures := by decide
@@ -759,22 +789,13 @@ theorem cmd_replaces_expired_window (s : St) (w : Window) (hw : s.window = some 
 
 /-! ## The proof a session rests on is a proof for the verifier of the window that is open -/
 
-@[simp] theorem recordFailure_fresh (s : St) : (recordFailure s).fresh = s.fresh := by
-  unfold recordFailure; simp only; splits
-@[simp] theorem removeTask_fresh (s : St) (x : Nat) : (removeTask s x).fresh = s.fresh := rfl
-@[simp] theorem setTask_fresh (s : St) (t : Task) : (setTask s t).fresh = s.fresh := rfl
-@[simp] theorem failTask_fresh (s : St) (x : Nat) : (failTask s x).fresh = s.fresh := by simp [failTask]
-@[simp] theorem updateSessionTimeout_fresh (s : St) (x : Nat) (n : Bool) :
-    (updateSessionTimeout s x n).1.fresh = s.fresh := by
-  unfold updateSessionTimeout; simp only; splits
-@[simp] theorem evictOne_fresh (s : St) (v : Option VClass) : (evictOne s v).fresh = s.fresh := by
-  unfold evictOne; split <;> rfl
 
 /-- `b` is the window `a`, possibly closed meanwhile or with more failures counted: never another one -/
 def WinKeep (a b : Option Window) : Prop :=
-  ∀ w', b = some w' → ∃ w, a = some w ∧ w'.id = w.id ∧ w'.pw = w.pw ∧ w'.expiry = w.expiry
+  ∀ w', b = some w' → ∃ w, a = some w ∧ w'.id = w.id ∧ w'.pw = w.pw ∧ w'.expiry = w.expiry ∧
+    w.failures ≤ w'.failures
 
-theorem winKeep_refl (a : Option Window) : WinKeep a a := fun w' h => ⟨w', h, rfl, rfl, rfl⟩
+theorem winKeep_refl (a : Option Window) : WinKeep a a := fun w' h => ⟨w', h, rfl, rfl, rfl, Nat.le_refl _⟩
 theorem winKeep_none (a : Option Window) : WinKeep a none := fun _ h => by cases h
 
 theorem winKeep_check {a : Option Window} {s : St} (h : WinKeep a s.window) :
@@ -795,9 +816,9 @@ theorem winKeep_record {a : Option Window} {s : St} (h : WinKeep a s.window) :
     · exact winKeep_none a
     · intro w' hw'
       injection hw' with hw'
-      obtain ⟨w0, h0, h1, h2, h3⟩ := h w hw
+      obtain ⟨w0, h0, h1, h2, h3, h4⟩ := h w hw
       subst hw'
-      exact ⟨w0, h0, h1, h2, h3⟩
+      exact ⟨w0, h0, h1, h2, h3, Nat.le_succ_of_le h4⟩
   · exact winKeep_none a
 
 theorem winKeep_fail {a : Option Window} {s : St} {x : Nat} (h : WinKeep a s.window) :
@@ -856,7 +877,8 @@ whose identity is fresh -/
 theorem step_window_frame (s : St) (op : Op) :
     WinKeep s.window (step s op).1.window ∨
     (∃ w', (step s op).1.window = some w' ∧ w'.id = s.fresh ∧
-      (step s op).1.fresh = s.fresh + 1 ∧ (step s op).1.tasks = s.tasks) := by
+      (step s op).1.fresh = s.fresh + 1 ∧ (step s op).1.tasks = s.tasks ∧
+      s.now ≤ w'.expiry ∧ w'.failures = 0) := by
   cases op with
   | openWin pw secs =>
     simp only [step, openWinCore]
@@ -865,7 +887,7 @@ theorem step_window_frame (s : St) (op : Op) :
     · split
       · left; exact winKeep_refl _
       · right
-        exact ⟨_, rfl, rfl, rfl, rfl⟩
+        exact ⟨_, rfl, rfl, rfl, rfl, Nat.le_add_right _ _, rfl⟩
   | openEnh pw secs sl it d =>
     simp only [step, openEnhCore]
     split
@@ -875,21 +897,21 @@ theorem step_window_frame (s : St) (op : Op) :
       · split
         · left; exact winKeep_refl _
         · right
-          exact ⟨_, rfl, rfl, rfl, rfl⟩
+          exact ⟨_, rfl, rfl, rfl, rfl, Nat.le_add_right _ _, rfl⟩
   | cmdOpenEnh pw secs sl it d vl =>
     simp only [step, openEnhCore]
     repeat' split
     all_goals first
       | (left; exact winKeep_refl _)
       | (left; exact winKeep_check (winKeep_refl _))
-      | (right; exact ⟨_, rfl, by simp, by simp, by simp⟩)
+      | (right; exact ⟨_, rfl, by simp, by simp, by simp, by simp, rfl⟩)
   | cmdOpenBasic pw secs =>
     simp only [step, openWinCore]
     repeat' split
     all_goals first
       | (left; exact winKeep_refl _)
       | (left; exact winKeep_check (winKeep_refl _))
-      | (right; exact ⟨_, rfl, by simp, by simp, by simp⟩)
+      | (right; exact ⟨_, rfl, by simp, by simp, by simp, by simp, rfl⟩)
   | revoke => left; exact winKeep_none _
   | tick ms => left; exact winKeep_refl _
   | poll => left; exact winKeep_check (winKeep_refl _)
@@ -942,6 +964,7 @@ theorem step_window_frame (s : St) (op : Op) :
     all_goals first
       | exact winKeep_refl _
       | (apply winKeep_fail; exact winKeep_refl _)
+      | (apply winKeep_record; exact winKeep_refl _)
   | rxTimeout x =>
     left
     simp only [step]
@@ -975,19 +998,19 @@ theorem step_widInv (s : St) (op : Op) (h : WidInv s) : WidInv (step s op).1 := 
     waitPake3_only_by_valid_pake1 s op t exp wid h1 h2
   refine ⟨?_, ?_, ?_⟩
   · intro t h1 exp wid h2
-    rcases ht t exp wid h1 h2 with hold | ⟨a, ctx, w, t0, _, _, _, hwin, _, _, _, _, hwid⟩
+    rcases ht t exp wid h1 h2 with hold | ⟨a, ctx, w, t0, _, _, _, hwin, _, _, _, _, hwid, _, _⟩
     · exact Nat.lt_of_lt_of_le (h.task_lt t hold exp wid h2) hf
     · rw [hwid]; exact Nat.lt_of_lt_of_le (h.win_lt w hwin) hf
   · intro w' hw'
-    rcases hw with hk | ⟨w2, hw2, hid, hfr, _⟩
+    rcases hw with hk | ⟨w2, hw2, hid, hfr, _, _, _⟩
     · obtain ⟨w, h0, h1, _, _⟩ := hk w' hw'
       rw [h1]; exact Nat.lt_of_lt_of_le (h.win_lt w h0) hf
     · rw [hw2] at hw'; injection hw' with hw'; subst hw'
       rw [hid, hfr]; exact Nat.lt_succ_self _
   · intro t h1 exp wid w' h2 hw' hid'
-    rcases hw with hk | ⟨w2, hw2, hid, _, htasks⟩
+    rcases hw with hk | ⟨w2, hw2, hid, _, htasks, _, _⟩
     · obtain ⟨w, h0, hi, hp, _⟩ := hk w' hw'
-      rcases ht t exp wid h1 h2 with hold | ⟨a, ctx, w1, t0, _, _, _, hwin, _, hpw, _, _, hwid⟩
+      rcases ht t exp wid h1 h2 with hold | ⟨a, ctx, w1, t0, _, _, _, hwin, _, hpw, _, _, hwid, _, _⟩
       · rw [hp]; exact h.bound t hold exp wid w h2 h0 (by rw [← hi]; exact hid')
       · rw [hwin] at h0; injection h0 with h0; subst h0
         rw [hp]; exact hpw
@@ -1524,7 +1547,9 @@ theorem step_tableInv (s : St) (op : Op) (h : TableInv s) : TableInv (step s op)
   | dead x =>
     simp only [step]
     split
-    · exact h
+    · split
+      · exact ⟨by simpa using h.reserved_iff, by simp, by simpa using h.cap⟩
+      · exact h
     · exact tableInv_failTask h rfl rfl
   | rxTimeout x =>
     simp only [step]
@@ -1818,7 +1843,9 @@ theorem step_holder (s : St) (op : Op) (h : HolderInv s) : HolderInv (step s op)
   | dead x =>
     simp only [step]
     split
-    · exact h
+    · split
+      · exact holder_none (by simp)
+      · exact h
     · exact holder_none (by simp)
   | rxTimeout x =>
     simp only [step]
